@@ -7,7 +7,8 @@ package main
 //     PrepareProposal and ProcessProposal the set of struct fields ("Type.Field") that the method
 //     or anything it calls inside the app package assigns, increments, index-assigns, deletes from
 //     or copies into; writes through a local alias of map / slice / pointer type that mentions an
-//     app type ("alias:<type>"); calls through interfaces or function values ("dyn:<name>"); and
+//     app type ("alias:<type>"); calls through interfaces or function values that are not closures
+//     written in the same function ("dyn:<name>"; such closures are walked in place); and
 //     values of app types handed to functions outside the package ("ext:<callee>:<type>").
 //     The analysis is by static type, not by access path: a write to a field of a type is counted
 //     wherever the object lives (an over-approximation, so nothing is missed by aliasing).
@@ -206,6 +207,9 @@ func genAppFrame(repo string) (string, error) {
 					} else {
 						callee = info.Uses[f.Sel]
 					}
+				case *ast.FuncLit:
+					// called on the spot (defer func() {...}()): its body is part of this function
+					return true
 				default:
 					x.writes["dyn:"+types.ExprString(s.Fun)] = true
 					return true
@@ -247,6 +251,12 @@ func genAppFrame(repo string) (string, error) {
 						}
 					}
 				case *types.Var:
+					// a local variable holding a closure written in this very function: the closure's
+					// body is walked with the rest of the function; anything else (a parameter, a
+					// field, a package variable) is a call we cannot see through
+					if !c.IsField() && c.Parent() != pkg.Scope() && c.Pos() >= x.decl.Body.Pos() && c.Pos() <= x.decl.Body.End() {
+						return true
+					}
 					x.writes["dyn:"+c.Name()] = true
 				case nil:
 					x.writes["dyn:"+types.ExprString(s.Fun)] = true
